@@ -20,13 +20,13 @@ def sched(fn, T, **kw):
 CHECKS = {
     "C01": {
         "explanation": "Inductive steps: Put, Get (synchronous paths) and NewConsumer executed symbolically from an arbitrary valid Buffer state (<= 4 retained values, symbolic 62-bit offset, <= 2 consumers with symbolic committed offsets and deltas) refine one step of the FIFO specification.",
-        "quick": [seq("Harness_C01_get_step"), seq("Harness_C01_put_step"), seq("Harness_C01_put_cancelled"), seq("Harness_C01_newconsumer_step")],
+        "quick": [seq("Harness_C01_get_step"), seq("Harness_C01_put_step"), seq("Harness_C01_put_cancelled"), seq("Harness_C01_newconsumer_step"), sched("Harness_C02_get_atomic", 18)],
         "thorough": [],
         "assumptions": ["representation invariant of verifArbitraryBuffer (harness/ac_buffer_support.go)", "absolute offsets below 2^62"],
     },
     "C02": {
         "explanation": "Commit/Rollback steps from arbitrary states, rollback replay windows of <= 3 reads, package Range with a callback that stops/panics/forces a Commit failure at a symbolic index, Buffer.Range over <= 4 values.",
-        "quick": [seq("Harness_C02_commit_rollback_step"), seq("Harness_C02_rollback_replays"), seq("Harness_C02_range_pkg"), seq("Harness_C02_buffer_range")],
+        "quick": [seq("Harness_C02_commit_rollback_step"), seq("Harness_C02_rollback_replays"), seq("Harness_C02_range_pkg"), seq("Harness_C02_buffer_range"), sched("Harness_C02_get_atomic", 18)],
         "thorough": [],
         "assumptions": ["representation invariant of verifArbitraryBuffer"],
     },
@@ -55,8 +55,8 @@ CHECKS = {
         "assumptions": ["spin bound: at most 2 failed TryRLock attempts (unfair schedules that spin longer are excluded)"],
     },
     "C08": {
-        "explanation": "ChanCaster.Add for every valid packed word and every 64-bit delta (idle), negative deltas >= -3 during a send, every poisoned word; Send || 2 receivers under every interleaving (symbolic scheduler, T=24).",
-        "quick": [seq("Harness_C08_add_idle"), seq("Harness_C08_add_sending"), seq("Harness_C08_poisoned"), sched("Harness_C08_caster_race", 24)],
+        "explanation": "ChanCaster.Add for every valid packed word and every 64-bit delta (idle), negative deltas >= -3 during a send, every poisoned word; Send || 2 receivers and two racing Sends || 1 receiver under every interleaving (symbolic scheduler, T=24).",
+        "quick": [seq("Harness_C08_add_idle"), seq("Harness_C08_add_sending"), seq("Harness_C08_poisoned"), sched("Harness_C08_caster_race", 24), sched("Harness_C08_caster_two_senders", 24)],
         "thorough": [],
         "assumptions": ["negative Add during a send is unrolled for |delta| <= 3"],
     },
